@@ -68,15 +68,19 @@ type scriptReader struct {
 	steps     []step
 	pos       int
 	lastFault time.Time     // time of the previous Read if it returned a fault, else zero
-	maxGap    time.Duration // largest gap between two faults returned by consecutive Reads
+	runStart  time.Time     // time of the first fault of the current series of consecutive faults
+	maxGap    time.Duration // longest series of consecutive faults inside the script, first to last
 	supplied  int
 	afterEnd  int
 }
 
 func (s *scriptReader) noteFault() {
 	now := time.Now()
-	if !s.lastFault.IsZero() && s.pos <= len(s.steps) {
-		if g := now.Sub(s.lastFault); g > s.maxGap && s.afterEnd == 0 {
+	if s.lastFault.IsZero() {
+		s.runStart = now // first fault of a series
+	} else if s.pos <= len(s.steps) && s.afterEnd == 0 {
+		// the handler counts its tolerance from the first fault of a series
+		if g := now.Sub(s.runStart); g > s.maxGap {
 			s.maxGap = g
 		}
 	}
@@ -167,11 +171,18 @@ func runFaultScript(k faultCase) faultObs {
 	sr.mu.Lock()
 	defer sr.mu.Unlock()
 	obs.supplied = sr.supplied
-	// stall guard: two faults returned by consecutive reads inside the script (so the
-	// script meant them to be within the tolerance) were in fact separated by at
-	// least half the tolerance: the handler was entitled to give up
-	if k.TimeoutMs > 0 && sr.maxGap > time.Duration(k.TimeoutMs)*time.Millisecond/2 {
-		obs.stalled = true
+	// stall guard: a series of faults returned by consecutive reads inside the script
+	// (so the script meant it to be within the tolerance) in fact lasted nearly as long
+	// as the tolerance or longer: the handler was entitled to give up.  The margin
+	// covers the handler reading its clock some time after the reader stamped the fault.
+	if k.TimeoutMs > 0 {
+		margin := time.Duration(k.TimeoutMs) * time.Millisecond / 2
+		if margin > 200*time.Millisecond {
+			margin = 200 * time.Millisecond
+		}
+		if sr.maxGap > time.Duration(k.TimeoutMs)*time.Millisecond-margin {
+			obs.stalled = true
+		}
 	}
 	return obs
 }
@@ -394,6 +405,23 @@ func monC13(c *child.Ctx, replay json.RawMessage) {
 			st = append(st, chunked(data[pos:], chunk)...)
 			c.Count("scripts_with_a_slow_first_fault", 1)
 			add(faultCase{Steps: st, TimeoutMs: tolMs, WaitMs: 1, Tolerant: true, Note: fmt.Sprintf("the read blocks longer than the tolerance before the first of two faults after byte %d", pos)}, inside[pos])
+		}
+		// other ratios of the pause between retries to the tolerance: a single fault with
+		// a pause nearly as long as the tolerance; two faults with a pause of more than
+		// half of it (the property speaks of single and double interruptions; after a second
+		// fault the handler sleeps for the whole tolerance, so a third one in a row is
+		// always beyond it).  The source has data again whenever it is asked, and every
+		// series of faults ends within the tolerance.
+		for i, cfg := range [][3]int{{900, 1000, 1}, {600, 1000, 2}, {550, 1000, 2}, {140, 400, 2}} {
+			if (si+i)%2 == 0 || c.Thorough() {
+				pos := r.Range(0, len(data))
+				var fl []string
+				for j := 0; j < cfg[2]; j++ {
+					fl = append(fl, faultKinds[r.Intn(3)])
+				}
+				c.Count("scripts_with_long_retry_pause", 1)
+				add(faultCase{Steps: mk(pos, fl), TimeoutMs: uint(cfg[1]), WaitMs: uint(cfg[0]), Tolerant: true, Note: fmt.Sprintf("%d fault(s) after byte %d, retry pause %d ms, tolerance %d ms", cfg[2], pos, cfg[0], cfg[1])}, inside[pos])
+			}
 		}
 		// two separate interruptions
 		for i := 0; i < 6; i++ {
